@@ -126,6 +126,48 @@ Proof.
 Qed.
 Lemma str_eqb_refl a : str_eqb a a = true. Proof. apply str_eqb_eq; reflexivity. Qed.
 
+(* ---- numeric dict keys: int z, or the non-integral float (2h+1)/2^e ------------------------- *)
+Section KeyNum.
+Local Open Scope Z_scope.
+Lemma pow2_split a b : 0 <= a < b -> exists m, 0 < m /\ 2 ^ b = 2 ^ a * (2 * m).
+Proof.
+  intros H. exists (2 ^ (b - a - 1)). split. apply Z.pow_pos_nonneg; lia.
+  replace b with (a + (1 + (b - a - 1))) at 1 by lia.
+  rewrite !Z.pow_add_r by lia. reflexivity.
+Qed.
+
+Lemma odd_pow_inj h e h' e' : 0 < e -> 0 < e' ->
+  (2 * h + 1) * 2 ^ e' = (2 * h' + 1) * 2 ^ e -> h = h' /\ e = e'.
+Proof.
+  intros He He' H.
+  assert (P : forall x, 0 < x -> 0 < 2 ^ x) by (intros; apply Z.pow_pos_nonneg; lia).
+  destruct (Z.lt_trichotomy e e') as [L|[L|L]].
+  - destruct (pow2_split e e') as (m & Hm & E); [lia|]. rewrite E in H. exfalso.
+    assert (Q : 2 ^ e * ((2 * h + 1) * (2 * m)) = 2 ^ e * (2 * h' + 1)) by (transitivity ((2 * h + 1) * (2 ^ e * (2 * m))); [ring | rewrite H; ring]).
+    apply Z.mul_reg_l in Q; [|specialize (P e He); lia].
+    assert (2 * ((2 * h + 1) * m) = 2 * h' + 1) by (rewrite <- Q; ring). lia.
+  - subst e'. split; auto. apply Z.mul_reg_r in H; [lia|specialize (P e He); lia].
+  - destruct (pow2_split e' e) as (m & Hm & E); [lia|]. rewrite E in H. exfalso.
+    assert (Q : 2 ^ e' * (2 * h + 1) = 2 ^ e' * ((2 * h' + 1) * (2 * m))) by (transitivity ((2 * h + 1) * 2 ^ e'); [ring | rewrite H; ring]).
+    apply Z.mul_reg_l in Q; [|specialize (P e' He'); lia].
+    assert (2 * ((2 * h' + 1) * m) = 2 * h + 1) by (rewrite Q; ring). lia.
+Qed.
+
+Lemma knum_inj k k' p q : knum k = Some p -> knum k' = Some q -> Qeq p q -> k = k'.
+Proof.
+  destruct k, k'; unfold knum; try discriminate; intros A B E; injection A as <-; injection B as <-.
+  - change (z * 1 = z0 * 1) in E. f_equal. lia.
+  - exfalso. change (z * Z.pos (2 ^ e) = (2 * h + 1) * 1) in E.
+    rewrite Pos2Z.inj_pow in E. destruct (pow2_split 0 (Z.pos e)) as (m & Hm & F); [lia|].
+    rewrite F in E. change (2 ^ 0) with 1 in E. assert (2 * (z * m) = 2 * h + 1) by (transitivity (z * (1 * (2 * m))); [ring | rewrite E; ring]). lia.
+  - exfalso. change ((2 * h + 1) * 1 = z * Z.pos (2 ^ e)) in E.
+    rewrite Pos2Z.inj_pow in E. destruct (pow2_split 0 (Z.pos e)) as (m & Hm & F); [lia|].
+    rewrite F in E. change (2 ^ 0) with 1 in E. assert (2 * (z * m) = 2 * h + 1) by (transitivity (z * (1 * (2 * m))); [ring | rewrite <- E; ring]). lia.
+  - change ((2 * h + 1) * Z.pos (2 ^ e0) = (2 * h0 + 1) * Z.pos (2 ^ e)) in E.
+    rewrite !Pos2Z.inj_pow in E. destruct (odd_pow_inj h (Z.pos e) h0 (Z.pos e0)); try lia. congruence.
+Qed.
+End KeyNum.
+
 (* ---- the normal-form trees and their order ------------------------------------------------- *)
 Inductive nv : Type :=
 | NNum (q : Q)
@@ -177,42 +219,50 @@ Proof.
   destruct c, d; simpl in *; try discriminate; try reflexivity. congruence.
 Qed.
 
-Lemma key_cmp_refl k : key_cmp t k k = Eq.
-Proof. unfold key_cmp. rewrite str_cmp_refl. destruct k. apply str_cmp_refl. apply Z.compare_refl. Qed.
-Lemma key_cmp_antisym k k' : key_cmp t k' k = CompOpp (key_cmp t k k').
-Proof.
-  unfold key_cmp. rewrite (str_cmp_antisym (krank t k) (krank t k')).
-  destruct (str_cmp (krank t k) (krank t k')); simpl; auto.
-  destruct k, k'; simpl; auto. apply str_cmp_antisym. apply Z.compare_antisym.
-Qed.
 Definition kbody (k k' : key) : comparison :=
-  match k, k' with
-  | KInt a, KInt b => Z.compare a b
-  | KStr a, KStr b => str_cmp a b
-  | KInt _, KStr _ => Lt
-  | KStr _, KInt _ => Gt
+  match knum k, knum k' with
+  | Some p, Some q => Qcompare p q
+  | Some _, None => Lt
+  | None, Some _ => Gt
+  | None, None => match k, k' with KStr a, KStr b => str_cmp a b | _, _ => Eq end
   end.
 Lemma key_cmp_unfold k k' : key_cmp t k k' = cthen (str_cmp (krank t k) (krank t k')) (kbody k k').
 Proof. unfold key_cmp, kbody, cthen. destruct (str_cmp _ _); auto. Qed.
+Lemma kbody_refl k : kbody k k = Eq.
+Proof. unfold kbody. destruct k; cbn [knum]. apply str_cmp_refl. apply Q_cmp_refl. apply Q_cmp_refl. Qed.
+Lemma kbody_antisym k k' : kbody k' k = CompOpp (kbody k k').
+Proof.
+  unfold kbody. destruct (knum k) eqn:A, (knum k') eqn:B; auto using Q_cmp_antisym.
+  destruct k; try discriminate A. destruct k'; try discriminate B. apply str_cmp_antisym.
+Qed.
 Lemma kbody_trans a b c : trans_ok (kbody a b) (kbody b c) (kbody a c).
 Proof.
-  destruct a, b, c; simpl; auto using str_cmp_trans, Z_cmp_trans;
-    try (destruct (str_cmp _ _); simpl; auto); try (destruct (Z.compare _ _); simpl; auto).
+  unfold kbody. destruct (knum a) eqn:A, (knum b) eqn:B, (knum c) eqn:C; simpl; auto using Q_cmp_trans;
+    repeat match goal with H : knum ?k = None |- _ => destruct k; try discriminate H; clear H end;
+    simpl; auto using str_cmp_trans;
+    try (destruct (Qcompare _ _); simpl; auto; fail); try (destruct (str_cmp _ _); simpl; auto; fail).
 Qed.
+Lemma kbody_eq k k' : kbody k k' = Eq -> k = k'.
+Proof.
+  unfold kbody. destruct (knum k) eqn:A, (knum k') eqn:B; try discriminate.
+  - intros H. apply Qeq_alt in H. eapply knum_inj; eauto.
+  - destruct k; try discriminate A. destruct k'; try discriminate B. intros H; apply str_cmp_eq in H; congruence.
+Qed.
+Lemma key_cmp_refl k : key_cmp t k k = Eq.
+Proof. rewrite key_cmp_unfold, str_cmp_refl. apply kbody_refl. Qed.
+Lemma key_cmp_antisym k k' : key_cmp t k' k = CompOpp (key_cmp t k k').
+Proof. rewrite !key_cmp_unfold, cthen_opp, <- str_cmp_antisym, <- kbody_antisym. reflexivity. Qed.
 Lemma key_cmp_trans a b c : trans_ok (key_cmp t a b) (key_cmp t b c) (key_cmp t a c).
 Proof. rewrite !key_cmp_unfold. apply cthen_trans. apply str_cmp_trans. intros; apply kbody_trans. Qed.
 Lemma key_cmp_eq k k' : key_cmp t k k' = Eq -> k = k'.
-Proof.
-  rewrite key_cmp_unfold. destruct (str_cmp _ _); simpl; try discriminate.
-  destruct k, k'; simpl; try discriminate.
-  - intros H; apply str_cmp_eq in H; congruence.
-  - intros H; apply Z.compare_eq in H; congruence.
-Qed.
+Proof. rewrite key_cmp_unfold. destruct (str_cmp _ _); simpl; try discriminate. apply kbody_eq. Qed.
 Lemma key_eqb_eq k k' : key_eqb k k' = true <-> k = k'.
 Proof.
   destruct k, k'; simpl; split; try discriminate; intros H.
   - apply str_eqb_eq in H; congruence. - inv H. apply str_eqb_refl.
   - apply Z.eqb_eq in H; congruence. - inv H. apply Z.eqb_refl.
+  - apply andb_prop in H. destruct H as [H1 H2]. apply Z.eqb_eq in H1. apply Pos.eqb_eq in H2. congruence.
+  - inv H. rewrite Z.eqb_refl, Pos.eqb_refl. reflexivity.
 Qed.
 Lemma key_eqb_cmp k k' : key_eqb k k' = is_eq (key_cmp t k k').
 Proof.
